@@ -3065,15 +3065,10 @@ fn transcode_double_quoted_to_json(
                         i += 2;
                     }
                     b'u' => {
-                        // \uNNNN - 4 hex digits
-                        if i + 4 >= bytes.len() {
-                            return Err(YamlStringError::InvalidEscape);
-                        }
-                        let hex = &bytes[i + 1..i + 5];
-                        let codepoint = parse_hex(hex)?;
-                        let ch = char::from_u32(codepoint).ok_or(YamlStringError::InvalidEscape)?;
+                        // \uNNNN - 4 hex digits (or a surrogate pair)
+                        let (ch, len) = decode_u_escape(bytes, i)?;
                         write_json_escape(output, ch);
-                        i += 4;
+                        i += len;
                     }
                     b'U' => {
                         // \UNNNNNNNN - 8 hex digits
@@ -3810,14 +3805,9 @@ fn stream_transcode_double_quoted_to_json<Out: core::fmt::Write>(
                         i += 2;
                     }
                     b'u' => {
-                        if i + 4 >= bytes.len() {
-                            return Err(YamlStringError::InvalidEscape);
-                        }
-                        let hex = &bytes[i + 1..i + 5];
-                        let codepoint = parse_hex(hex)?;
-                        let ch = char::from_u32(codepoint).ok_or(YamlStringError::InvalidEscape)?;
+                        let (ch, len) = decode_u_escape(bytes, i)?;
                         stream_json_escape(out, ch).map_err(|_| YamlStringError::InvalidUtf8)?;
-                        i += 4;
+                        i += len;
                     }
                     b'U' => {
                         if i + 8 >= bytes.len() {
@@ -5266,15 +5256,10 @@ fn decode_double_quoted(bytes: &[u8]) -> Result<String, YamlStringError> {
                         i += 2;
                     }
                     b'u' => {
-                        // \uNNNN - 4 hex digits
-                        if i + 4 >= bytes.len() {
-                            return Err(YamlStringError::InvalidEscape);
-                        }
-                        let hex = &bytes[i + 1..i + 5];
-                        let codepoint = parse_hex(hex)?;
-                        result
-                            .push(char::from_u32(codepoint).ok_or(YamlStringError::InvalidEscape)?);
-                        i += 4;
+                        // \uNNNN - 4 hex digits (or a surrogate pair)
+                        let (ch, len) = decode_u_escape(bytes, i)?;
+                        result.push(ch);
+                        i += len;
                     }
                     b'U' => {
                         // \UNNNNNNNN - 8 hex digits
@@ -5542,6 +5527,31 @@ fn fold_plain_line_break(
 }
 
 /// Parse hex digits into a u32.
+/// Decode the `\uNNNN` escape whose `u` is `bytes[i]`; returns the character and how many bytes
+/// after the `u` belong to it. JSON (which yq reads through this decoder) spells a character beyond
+/// the BMP as a UTF-16 surrogate pair, `\ud83d\ude00`: a high surrogate immediately followed by a
+/// `\u` low surrogate is one character. A surrogate on its own stays an invalid escape.
+fn decode_u_escape(bytes: &[u8], i: usize) -> Result<(char, usize), YamlStringError> {
+    if i + 4 >= bytes.len() {
+        return Err(YamlStringError::InvalidEscape);
+    }
+    let codepoint = parse_hex(&bytes[i + 1..i + 5])?;
+    if (0xD800..0xDC00).contains(&codepoint)
+        && i + 10 < bytes.len()
+        && bytes[i + 5] == b'\\'
+        && bytes[i + 6] == b'u'
+    {
+        let low = parse_hex(&bytes[i + 7..i + 11])?;
+        if (0xDC00..0xE000).contains(&low) {
+            let combined = 0x10000 + ((codepoint - 0xD800) << 10) + (low - 0xDC00);
+            let ch = char::from_u32(combined).ok_or(YamlStringError::InvalidEscape)?;
+            return Ok((ch, 10));
+        }
+    }
+    let ch = char::from_u32(codepoint).ok_or(YamlStringError::InvalidEscape)?;
+    Ok((ch, 4))
+}
+
 fn parse_hex(hex: &[u8]) -> Result<u32, YamlStringError> {
     let mut value = 0u32;
     for &b in hex {
